@@ -27,6 +27,12 @@
  *   assignm <t> <I|S|P> k1 v1 ... kn vn    assign(tables[t], m) for a map m that is not a Table: a probe type (Len, Iter, Get with key_type/val_type)
  *                            whose foreach yields the keys in the order given and whose get answers the value paired with the key object (n <= 30)
  *   ideal <a> <b>            Table_Ideal_Size on [a,b)
+ *   mark <t>                 mark(tables[t], gc, f) with a recording f (what a collection that reaches the table is told): `O mark n=<calls>
+ *                            cs=<checksum> <slot>.k:<key> <slot>.v:<val> ...` — every reported pointer is classified by its address (record, key or
+ *                            value object); oracle: every bound key object exactly once, followed by the value object of the same record, nothing
+ *                            from an empty record or from outside the array
+ *   hash <t>                 hash(tables[t]) (Table_Hash); printed for tables whose values are Int (kinds I S Q; `n/a` otherwise: the driver has no
+ *                            hash of a String / PVal value); oracle: xor over the map's bindings of hash(key) ^ hash(value) (kinds I S Q V W)
  * After every op: `O <op> [result] | <nslots> <nitems> | <slots>` — every slot `idx:storedhash:key:val` when nslots <= 200, else a
  * 32-slot window starting 4 slots before the key's home, plus `cs=` (checksum of the whole slot array) whenever nslots changed.
  * Direct oracle: a separate map per table kept here (chained buckets over an unrelated string hash), compared through the public
@@ -349,6 +355,19 @@ static void probe_ledger(var* tabs) {
   if (probe_double) { XF("table-probe-double", "%ld elements destructed twice", probe_double); probe_double = 0; }
 }
 
+/* ------------------------------------------------------------------ Table_Mark with a recording callback */
+#define MARKMAX 400000
+static var* mark_rec = NULL; static size_t mark_n = 0; static int mark_gc_bad = 0;
+static var MARK_GC_TOKEN = (var)&mark_n;
+static void mark_cb(var gc, void* p) {
+  if (gc != MARK_GC_TOKEN) mark_gc_bad++;
+  if (!mark_rec) mark_rec = malloc(MARKMAX * sizeof(var));
+  if (mark_n < MARKMAX) mark_rec[mark_n] = p;
+  mark_n++;
+}
+static long st_mark_calls = 0, st_mark_empty_tables = 0, st_mark_reports = 0, st_mark_skipped = 0, st_mark_wrapped = 0;
+static long st_hash_calls = 0, st_hash_empty = 0, st_hash_entries = 0, st_hash_na = 0;
+
 static void del_table(var* tabs, int i) {
   if (managed[i]) del(tabs[i]); else del_raw(tabs[i]);
   tabs[i] = NULL;
@@ -438,7 +457,7 @@ int main(int argc, char** argv) {
         if (op[0] == 's' && rv.form != 'o') { rh = hash($S(rv.k.raw)); if (rh != rv.k.hash) { XF("table-stale-hash", "op file says hash(%s) = %" PRIu64 ", the library says %" PRIu64, rv.k.name, rv.k.hash, rh); rv.k.hash = rh; } }
       }
     } else if ((strcmp(op, "new") == 0 || strcmp(op, "newm") == 0) && nw == 3 && strlen(w[2]) == 1 && kind_of_char(w[2][0]) >= 0) { nk = kind_of_char(w[2][0]); }
-    else if ((strcmp(op, "len") == 0 || strcmp(op, "iter") == 0 || strcmp(op, "riter") == 0 || strcmp(op, "check") == 0) && nw == 2) { }
+    else if ((strcmp(op, "len") == 0 || strcmp(op, "iter") == 0 || strcmp(op, "riter") == 0 || strcmp(op, "check") == 0 || strcmp(op, "mark") == 0 || strcmp(op, "hash") == 0) && nw == 2) { }
     else if (strcmp(op, "resize") == 0 && nw == 3 && parse_u64(w[2], &un) && un <= 4000000) { }
     else if ((strcmp(op, "assign") == 0 || strcmp(op, "copy") == 0) && nw == 3 && parse_u64(w[2], &src) && src < NT) { }
     else { O("bad-op"); continue; }
@@ -594,6 +613,68 @@ int main(int argc, char** argv) {
       bool r = false; V_TRY(exc, r = mem(tabs[ti], KEYOBJ(kind, k)));
       if (exc) O("mem %s", v_exc_name(exc)); else O("mem %d", r ? 1 : 0);
       if (exc) XF("table-mem", "mem raised %s", v_exc_name(exc)); else if (r != (map_find(m, k.name) != NULL)) XF("table-mem", "mem %s = %d want %d", k.name, (int)r, map_find(m, k.name) != NULL);
+    } else if (strcmp(op, "mark") == 0) {
+      /* the collector's view: Table_Mark through the public `mark`, with a callback that records the pointers */
+      mark_n = 0; mark_gc_bad = 0;
+      V_TRY(exc, mark(tabs[ti], MARK_GC_TOKEN, mark_cb));
+      st_mark_calls++; if (t->nslots == 0) st_mark_empty_tables++;
+      if (exc) { O("mark %s", v_exc_name(exc)); XF("table-mark", "mark raised %s", v_exc_name(exc)); }
+      else {
+        size_t step = Table_Step(t), koff = sizeof(uint64_t) + sizeof(struct Header), voff = koff + t->ksize + sizeof(struct Header);
+        uint64_t c = FNV0; dlen = 0; dput("%s", ""); epoch++;
+        size_t shown = 0; long last_key_slot = -1; size_t nrec = mark_n < MARKMAX ? mark_n : MARKMAX;
+        if (mark_gc_bad) XF("table-mark", "the callback was given another gc argument %d times", mark_gc_bad);
+        for (size_t r = 0; r < nrec; r++) {
+          char* p = mark_rec[r];
+          if (!t->data || p < (char*)t->data || p >= (char*)t->data + t->nslots * step) {
+            c = mix(c, 0); if (shown++ < ITERMAX) dput(" ?"); XF("table-mark", "call %zu reports an address outside the slot array", r); last_key_slot = -1; continue;
+          }
+          size_t i = (size_t)(p - (char*)t->data) / step, off = (size_t)(p - (char*)t->data) % step;
+          int part = off == koff ? 1 : off == voff ? 2 : 0;
+          if (!part) { c = mix(c, 0); if (shown++ < ITERMAX) dput(" %zu.?", i); XF("table-mark", "call %zu reports offset %zu of record %zu: neither its key nor its value object", r, off, i); last_key_slot = -1; continue; }
+          if (!Table_Key_Hash(t, i)) { c = mix(c, 0); if (shown++ < ITERMAX) dput(" %zu.%c:empty", i, part == 1 ? 'k' : 'v'); XF("table-mark", "call %zu reports the %s object of the EMPTY record %zu (zeroed memory)", r, part == 1 ? "key" : "value", i); last_key_slot = -1; continue; }
+          char nm[40]; slot_key_name(t, kind, i, nm, sizeof nm);
+          if (part == 1) {
+            c = mix(mix(mix(c, i + 1), 1), hash(Table_Key(t, i)));
+            if (shown++ < ITERMAX) dput(" %zu.k:%s", i, nm);
+            ONode* nd = map_find(m, nm);
+            if (!nd) XF("table-mark", "key %s is reported but not bound", nm);
+            else if (nd->stamp == epoch) XF("table-mark", "key object %s is reported twice", nm);
+            else nd->stamp = epoch;
+            last_key_slot = (long)i; st_mark_reports++;
+          } else {
+            int64_t vv = slot_val(t, kind, i);
+            c = mix(mix(mix(c, i + 1), 2), (uint64_t)vv);
+            if (shown++ < ITERMAX) dput(" %zu.v:%" PRId64, i, vv);
+            if (last_key_slot != (long)i) XF("table-mark", "value object of record %zu is reported without its key object just before", i);
+            ONode* nd = map_find(m, nm);
+            if (nd && nd->val != vv) XF("table-mark", "value object reported for %s holds %" PRId64 " want %" PRId64, nm, vv, nd->val);
+            last_key_slot = -1; st_mark_reports++;
+          }
+        }
+        O("mark n=%zu cs=%" PRIu64 "%s", mark_n, c, dbuf);
+        if (mark_n != 2 * m->count) XF("table-mark", "%zu objects reported, the table binds %zu keys (want %zu)", mark_n, m->count, 2 * m->count);
+        else for (size_t b = 0; b < NB; b++) for (ONode* nd = m->b[b]; nd; nd = nd->next) if (nd->stamp != epoch) { XF("table-mark", "bound key %s is not reported to the collector", nd->name); break; }
+        st_mark_skipped += (long)(t->nslots - t->nitems);
+        if (t->nslots && Table_Key_Hash(t, 0) && Table_Probe(t, 0, Table_Key_Hash(t, 0)) > 0) st_mark_wrapped++;
+      }
+      if (t->nslots != nslots0 || t->nitems != nitems0 || (small0 && checksum(t, kind) != cs0)) XF("table-changed-on-error", "mark changed the table");
+    } else if (strcmp(op, "hash") == 0) {
+      st_hash_calls++;
+      if (vcls(kind) == CPROBE) { O("hash n/a"); st_hash_na++; }      /* PVal has no Hash instance: hash_data over a struct with a pointer in it */
+      else {
+        uint64_t h = 0; V_TRY(exc, h = hash(tabs[ti]));
+        if (exc) { O("hash %s", v_exc_name(exc)); XF("table-hash", "hash raised %s", v_exc_name(exc)); }
+        else {
+          if (vcls(kind) == CINT) O("hash %" PRIu64, h); else { O("hash n/a"); st_hash_na++; }
+          uint64_t want = 0;
+          for (size_t b = 0; b < NB; b++) for (ONode* nd = m->b[b]; nd; nd = nd->next)
+            want ^= nd->hash ^ (vcls(kind) == CINT ? (uint64_t)nd->val : hash($S(valtxt(nd->val))));
+          if (h != want) XF("table-hash", "hash(t) = %" PRIu64 ", the xor over the %zu bindings of hash(key) ^ hash(value) is %" PRIu64, h, m->count, want);
+          if (m->count == 0) st_hash_empty++; st_hash_entries += (long)m->count;
+        }
+      }
+      if (t->nslots != nslots0 || t->nitems != nitems0 || (small0 && checksum(t, kind) != cs0)) XF("table-changed-on-error", "hash changed the table");
     } else if (strcmp(op, "len") == 0) {
       O("len %zu", len(tabs[ti]));
       if (len(tabs[ti]) != m->count) XF("table-len", "len %zu want %zu", len(tabs[ti]), m->count);
@@ -698,5 +779,7 @@ int main(int argc, char** argv) {
   for (int i = 0; i < NT; i++) { map_clear(&omap[i]); del_table(tabs, i); }
   if (probe_live != 0) { cur_line = 0; XF("table-probe-live", "%ld probe elements alive after all tables were deleted", probe_live); }
   I("ops=%zu full-verifications=%ld oracle-failures=%ld", nops, n_full, n_x);
+  I("mark-calls=%ld mark-on-zero-slot-tables=%ld mark-objects-reported=%ld mark-empty-records-skipped=%ld mark-with-wrapped-cluster=%ld hash-calls=%ld hash-of-empty=%ld hash-bindings-folded=%ld hash-not-printed=%ld",
+    st_mark_calls, st_mark_empty_tables, st_mark_reports, st_mark_skipped, st_mark_wrapped, st_hash_calls, st_hash_empty, st_hash_entries, st_hash_na);
   return 0;
 }
